@@ -248,7 +248,7 @@ def prepare(root: Path, case):
 # ------------------------------------------------------------------------------------------ restart
 
 
-def run_restart_case(case, timeout=60):
+def run_restart_case(case, timeout=25):
     root = Path(tempfile.mkdtemp(prefix="xv-c11-"))
     obs = {"id": case["id"], "error": None}
     procs = []
@@ -308,6 +308,13 @@ def run_restart_case(case, timeout=60):
         obs["ended_before_kill"] = sorted(x for k, x, _, t in lines if k == "end" and t <= t_kill)
         if phase == "mid-launch" and (ws / "spawned").exists():
             obs["orphan_pid_alive"] = pid_alive(int((ws / "spawned").read_text()))
+        if case.get("finish_before_restart"):
+            # the surviving job processes end before the experiment is run again
+            for x in open_bodies:
+                (ws / f"gate.{x}").touch()
+            wait_for(lambda: not any(pid_alive(pid) for pid in open_bodies.values()), timeout)
+            time.sleep(0.3)
+            obs["finished_before_restart"] = sorted(open_bodies)
         # ---- second run of the same experiment
         p2 = subprocess.Popen(cmd + ["2"], env=env, stdout=subprocess.DEVNULL, stderr=open(root / "err2", "w"), cwd=str(root))
         procs.append(p2)
